@@ -671,6 +671,96 @@ fn gen_rows(ctx: &mut Ctx) -> Vec<RowCase> {
 
 // ---------------------------------------------------------------------------------------------
 
+
+// ---------------------------------------------------------------------------------------------
+// Reader level: the rows `Reader::next_interlaced_row` REPORTS for interlaced stills and for APNG frames (sub-frames
+// narrower / lower than the canvas, separate default image) are the specification's rows of the FRAME's own size, and
+// scattering them with `png::expand_interlaced_row` at the frame's own stride gives the frame's pixels.
+// (The glue between the pass iterator and the Reader - which width and height the iterator is created with for a
+// sub-frame - is not visible to the iterator-level part above.)
+// ---------------------------------------------------------------------------------------------
+
+fn reader_rows_part(ctx: &mut Ctx) {
+    use crate::refpng;
+    let mut rng = ctx.rng.fork(1507);
+    let n = ctx.n(120, 900);
+    for k in 0..n {
+        let mut a = refpng::random_anim(&mut rng, if k % 4 == 0 { 40 } else { 12 }, 3);
+        a.interlace = true;
+        if k % 3 == 0 {
+            // force a sub-frame strictly narrower AND lower than the canvas where the canvas allows it
+            if a.w >= 2 && a.h >= 2 {
+                if let Some(f) = a.frames.last_mut() {
+                    let fw = rng.range(1, (a.w - 1) as u64) as u32;
+                    let fh = rng.range(1, (a.h - 1) as u64) as u32;
+                    f.img = refpng::Img::random(&mut rng, a.color, a.depth, fw, fh);
+                    f.x = rng.range(0, (a.w - fw) as u64) as u32;
+                    f.y = rng.range(0, (a.h - fh) as u64) as u32;
+                }
+                if a.default_image.is_none() && a.frames.len() == 1 {
+                    // the IDAT frame of an animation covers the canvas: add a full first frame in front
+                    let full = refpng::AnimFrame { x: 0, y: 0, img: refpng::Img::random(&mut rng, a.color, a.depth, a.w, a.h), ..a.frames[0].clone() };
+                    a.frames.insert(0, full);
+                }
+            }
+        }
+        let (chunks, expected) = refpng::anim_chunks(&a, &mut rng);
+        let file = refpng::serialize(&chunks);
+        let bits = (refpng::samples(a.color) * a.depth as usize) as u8;
+        let narrower = expected.iter().any(|e| e.w < a.w || e.h < a.h);
+        ctx.rep.eval(true, fnv64(&file));
+        ctx.rep.count("reader rows: file", if narrower { "APNG with a sub-frame smaller than the canvas" } else { "frames of canvas size" });
+        let case = || J::obj().set("op", J::s("reader-rows")).set("file", J::s(&hex(&file)));
+        let res = guarded(|| -> Result<(), (String, String)> {
+            let mut d = png::Decoder::new(std::io::Cursor::new(file.clone()));
+            d.set_transformations(png::Transformations::IDENTITY);
+            let mut r = d.read_info().map_err(|e| ("reader-rows/rejected".to_string(), format!("read_info: {}", e)))?;
+            for (fi, e) in expected.iter().enumerate() {
+                if fi > 0 {
+                    r.next_frame_info().map_err(|e| ("reader-rows/rejected".to_string(), format!("next_frame_info for frame {}: {}", fi, e)))?;
+                }
+                let want = spec_rows(e.w as u64, e.h as u64, usize::MAX);
+                let stride = (e.w as usize * bits as usize + 7) / 8;
+                let mut img = vec![0u8; stride * e.h as usize];
+                let mut got = Vec::new();
+                loop {
+                    let row = r.next_interlaced_row().map_err(|er| ("reader-rows/rejected".to_string(), format!("frame {} ({}x{} on a {}x{} canvas), row {}: {}", fi, e.w, e.h, a.w, a.h, got.len(), er)))?;
+                    let row = match row { Some(x) => x, None => break };
+                    let info = match row.interlace() { png::InterlaceInfo::Adam7(i) => *i, _ => return Err(("reader-rows/not-adam7".to_string(), "a row of an interlaced image is reported as not interlaced".to_string())) };
+                    // the fields are not public: read them from the Debug form "Adam7Info { pass: 1, line: 0, width: 4 }"
+                    let dbg = format!("{:?}", info);
+                    let nums: Vec<u64> = dbg.split(|c: char| !c.is_ascii_digit()).filter(|x| !x.is_empty()).filter_map(|x| x.parse().ok()).collect();
+                    // leading "7" of "Adam7Info"
+                    let t = (nums.get(1).copied().unwrap_or(0) as u8, nums.get(2).copied().unwrap_or(0) as u32, nums.get(3).copied().unwrap_or(0) as u32);
+                    let idx = got.len();
+                    if want.get(idx) != Some(&t) {
+                        return Err(("reader-rows/geometry".to_string(), format!("frame {} ({}x{} on a {}x{} canvas): row {} reported as (pass, line, width) = {:?}, the specification says {:?}", fi, e.w, e.h, a.w, a.h, idx, t, want.get(idx))));
+                    }
+                    let need = (t.2 as usize * bits as usize + 7) / 8;
+                    if row.data().len() != need {
+                        return Err(("reader-rows/row-length".to_string(), format!("frame {} row {}: {} bytes returned, a row of {} pixels of {} bits has {}", fi, idx, row.data().len(), t.2, bits, need)));
+                    }
+                    png::expand_interlaced_row(&mut img, stride, row.data(), &info, bits);
+                    got.push(t);
+                    if got.len() > want.len() + 8 { break; }
+                }
+                if got.len() != want.len() {
+                    return Err(("reader-rows/count".to_string(), format!("frame {} ({}x{}): {} rows delivered, the specification has {}", fi, e.w, e.h, got.len(), want.len())));
+                }
+                if img != e.pixels {
+                    return Err(("reader-rows/pixels".to_string(), format!("frame {} ({}x{} on a {}x{} canvas): the rows scattered with expand_interlaced_row do not give the frame's pixels", fi, e.w, e.h, a.w, a.h)));
+                }
+            }
+            Ok(())
+        });
+        match res {
+            Ok(Ok(())) => {}
+            Ok(Err((key, what))) => ctx.rep.violation("oracle", &key, &what, case()),
+            Err(p) => ctx.rep.violation("oracle", "reader-rows/panic", &format!("reading the rows of an interlaced file panicked: {}", p), case()),
+        }
+    }
+}
+
 pub fn run(ctx: &mut Ctx) {
     ctx.rep.rule = "geometry: all (w, h) in [0, 64]^2 (quick) / [0, 200]^2 (thorough) in full, plus boundary values \
         2^k, 2^k +- 1..8, 2^31 - 1, 2^32 - 1 paired with small / boundary / random partners, truncated with take(max); \
@@ -788,6 +878,7 @@ pub fn run(ctx: &mut Ctx) {
     for c in rows.iter().filter(|c| c.in_domain() && c.width >= 2 && c.img.len() <= 24).take(2) {
         ctx.rep.sample(c.json());
     }
+    reader_rows_part(ctx);
 }
 
 /// shrink a failing single-row case: fewer pixels, zeroed row bytes, simpler destination bytes
